@@ -484,7 +484,21 @@ func c19Concurrent(w *verifrt.World, tier Tier) *RunResult {
 	}
 	h.Close()
 	ctx := fmt.Sprintf("(%s writer, %s)\nconfiguration:\n%s", sc.Writer, schedInfo, text)
-	switch sc.Writer {
+	var ids []string
+	for _, s := range sc.Scripts {
+		ids = append(ids, s.ID)
+	}
+	auditFilesCheck(res, "C19", sc.Writer, disk, ids, stamps, ctx)
+	return res
+}
+
+
+// auditFilesCheck parses what the real serial / concurrent writer left on the
+// simulated disk: whole records, every listed transaction exactly once, index
+// entries of the concurrent writer not interleaved (and, when stamps are given,
+// each file at the path derived from the transaction's timestamp and id).
+func auditFilesCheck(res *RunResult, prop, writer string, disk *simos.FS, ids []string, stamps []int64, ctx string) {
+	switch writer {
 	case "Serial":
 		data, _ := disk.ReadAll(simos.Root + "/audit/audit.log")
 		seen := map[string]int{}
@@ -494,82 +508,79 @@ func c19Concurrent(w *verifrt.World, tier Tier) *RunResult {
 			}
 			var doc map[string]any
 			if err := json.Unmarshal([]byte(line), &doc); err != nil {
-				res.fail("C19", "serial-interleaved", "line-not-json", "line %d of the serial audit log is not one JSON document: %q %s", li, clip(line, 300), ctx)
+				res.fail(prop, "serial-interleaved", "line-not-json", "line %d of the serial audit log is not one JSON document: %q %s", li, clip(line, 300), ctx)
 				break
 			}
 			tr, _ := doc["transaction"].(map[string]any)
 			seen[fmt.Sprint(tr["id"])]++
 		}
-		for _, s := range sc.Scripts {
-			if seen[s.ID] != 1 {
-				res.fail("C19", "serial-lost-or-duplicated", fmt.Sprintf("count%d", min(seen[s.ID], 2)), "transaction %s appears %d times in the serial audit log, want exactly once %s", s.ID, seen[s.ID], ctx)
+		for _, id := range ids {
+			if seen[id] != 1 {
+				res.fail(prop, "serial-lost-or-duplicated", fmt.Sprintf("count%d", min(seen[id], 2)), "transaction %s appears %d times in the serial audit log, want exactly once %s", id, seen[id], ctx)
 				break
 			}
 		}
-		res.count("serial_records_checked", int64(len(sc.Scripts)))
+		res.count("serial_records_checked", int64(len(ids)))
 	case "Concurrent":
 		index, _ := disk.ReadAll(simos.Root + "/audit/audit.log")
 		idxLines := strings.Split(strings.TrimRight(string(index), "\n"), "\n")
-		for k, s := range sc.Scripts {
-			ts := time.Unix(0, stamps[k]).UTC()
-			ymd := ts.Format("20060102")
-			p := fmt.Sprintf("%s/audit/data/%s/%s-%s/%s-%s%s-%s", simos.Root, ymd, ymd, ts.Format("1504"), ymd, ts.Format("1504"), ts.Format("05"), s.ID)
-			data, ok := disk.ReadAll(p)
-			if !ok {
-				res.fail("C19", "concurrent-file-missing", "path", "no audit file for transaction %s at the path derived from its timestamp (%s); files: %v %s", s.ID, p, disk.Files(), ctx)
-				break
+		for k, id := range ids {
+			p := ""
+			if stamps != nil {
+				ts := time.Unix(0, stamps[k]).UTC()
+				ymd := ts.Format("20060102")
+				p = fmt.Sprintf("%s/audit/data/%s/%s-%s/%s-%s%s-%s", simos.Root, ymd, ymd, ts.Format("1504"), ymd, ts.Format("1504"), ts.Format("05"), id)
+				data, ok := disk.ReadAll(p)
+				if !ok {
+					res.fail(prop, "concurrent-file-missing", "path", "no audit file for transaction %s at the path derived from its timestamp (%s); files: %v %s", id, p, disk.Files(), ctx)
+					break
+				}
+				var doc map[string]any
+				if err := json.Unmarshal(data, &doc); err != nil {
+					res.fail(prop, "concurrent-file-corrupt", "not-json", "audit file %s is not one JSON document: %q %s", p, clip(string(data), 300), ctx)
+					break
+				}
+				if tr, _ := doc["transaction"].(map[string]any); tr == nil || fmt.Sprint(tr["id"]) != id {
+					res.fail(prop, "concurrent-file-corrupt", "wrong-id", "audit file %s carries another transaction's record %s", p, ctx)
+					break
+				}
 			}
-			var doc map[string]any
-			if err := json.Unmarshal(data, &doc); err != nil {
-				res.fail("C19", "concurrent-file-corrupt", "not-json", "audit file %s is not one JSON document: %q %s", p, clip(string(data), 300), ctx)
-				break
-			}
-			if tr, _ := doc["transaction"].(map[string]any); tr == nil || fmt.Sprint(tr["id"]) != s.ID {
-				res.fail("C19", "concurrent-file-corrupt", "wrong-id", "audit file %s carries another transaction's record %s", p, ctx)
-				break
-			}
-			// exactly one index group, ending with "<id> - <path>", not interleaved:
-			// the group's first line is the client/host line directly followed by
-			// this transaction's request line
 			n := 0
 			for _, l := range idxLines {
-				if strings.HasPrefix(l, s.ID+" - ") {
+				if strings.HasPrefix(l, id+" - ") {
 					n++
-					if strings.TrimPrefix(l, s.ID+" - ") != p {
-						res.fail("C19", "concurrent-index", "wrong-path", "index entry of %s points to %q, the file is %q %s", s.ID, strings.TrimPrefix(l, s.ID+" - "), p, ctx)
+					if p != "" && strings.TrimPrefix(l, id+" - ") != p {
+						res.fail(prop, "concurrent-index", "wrong-path", "index entry of %s points to %q, the file is %q %s", id, strings.TrimPrefix(l, id+" - "), p, ctx)
 					}
 				}
 			}
 			if n != 1 {
-				res.fail("C19", "concurrent-index", fmt.Sprintf("count%d", min(n, 2)), "transaction %s has %d entries in the index file, want exactly one %s\nindex:\n%s", s.ID, n, ctx, clip(string(index), 1500))
+				res.fail(prop, "concurrent-index", fmt.Sprintf("count%d", min(n, 2)), "transaction %s has %d entries in the index file, want exactly one %s\nindex:\n%s", id, n, ctx, clip(string(index), 1500))
 				break
 			}
 		}
-		// groups not interleaved: every line "<id> - <path>" must be preceded by
-		// the lines of the same group (client line [, request line][, status]) and
-		// no other group's terminator in between
+		// entries not interleaved: a client line opens an entry, "<id> - <path>" closes it
 		groupOpen := false
 		for li, l := range idxLines {
-			isStart := strings.HasPrefix(l, "10.1.2.3 ")
+			isStart := strings.Contains(l, " - - [") // "<client> <host> - - [<timestamp>]"
 			isEnd := strings.Contains(l, " - "+simos.Root+"/audit/data/")
 			if isStart {
 				if groupOpen {
-					res.fail("C19", "concurrent-index", "interleaved", "index line %d starts a new entry before the previous one was finished %s\nindex:\n%s", li, ctx, clip(string(index), 1500))
+					res.fail(prop, "concurrent-index", "interleaved", "index line %d starts a new entry before the previous one was finished %s\nindex:\n%s", li, ctx, clip(string(index), 1500))
 					break
 				}
 				groupOpen = true
 			}
 			if isEnd {
 				if !groupOpen {
-					res.fail("C19", "concurrent-index", "interleaved", "index line %d finishes an entry that was not started %s\nindex:\n%s", li, ctx, clip(string(index), 1500))
+					res.fail(prop, "concurrent-index", "interleaved", "index line %d finishes an entry that was not started %s\nindex:\n%s", li, ctx, clip(string(index), 1500))
 					break
 				}
 				groupOpen = false
 			}
 		}
-		res.count("concurrent_records_checked", int64(len(sc.Scripts)))
+		res.count("concurrent_records_checked", int64(len(ids)))
 	}
-	return res
 }
 
 // runTxStamp is runTx that also reports the transaction's timestamp.
